@@ -890,8 +890,7 @@ def cli_args(case):
         a += ["--max-prefix-size", str(o["max_prefix"])]
     if o.get("max_suffix") is not None:
         a += ["--max-suffix-size", str(o["max_suffix"])]
-    if o.get("min_size"):
-        a += ["--min", str(o["min_size"])]
+    a += ["--min", str(o.get("min_size") or 0)]      # the CLI default is 1, GroupConfig::default() has 0
     if o.get("max_size") is not None:
         a += ["--max", str(o["max_size"])]
     a += ["--hash-fn", {"xxhash3": "xxhash"}.get(o.get("hash_fn", "metro"), o.get("hash_fn", "metro"))]
